@@ -310,7 +310,7 @@ func runC08(r *vhlib.Run) {
 					r.Violate("panic", fmt.Sprintf("%s: %s", in.Codec, res.Panic), replay)
 				}
 				// 3 ms per input or delivered byte is the calibrated allowance (property text); plus a constant
-				if res.Millis > 3*work+2000 {
+				if res.Millis > 3*work+10000 {
 					r.Violate("superlinear-time", fmt.Sprintf("%s %s: %d ms for %d input + %d output bytes", in.Codec, in.Kind, res.Millis, len(in.Data), res.Out), replay)
 				}
 				// memory: format constant (window/block tables) plus a small multiple of input+output
